@@ -448,6 +448,11 @@ func packDataOpt(options []EDNS0, msg []byte, off int) (int, error) {
 
 func unpackStringOctet(msg []byte, off int) (string, int, error) {
 	s := string(msg[off:])
+	// packStringOctet, String() and the zone parser treat a backslash as the
+	// start of an escape sequence, so a literal backslash must be escaped.
+	if strings.IndexByte(s, '\\') >= 0 {
+		s = strings.ReplaceAll(s, `\`, `\\`)
+	}
 	return s, len(msg), nil
 }
 
